@@ -6,12 +6,12 @@ Trace == ndJsonDeserialize("trace.ndjson")
 VARIABLE l
 Ev == Trace[l]
 SetOf(ev, f) == IF f \in DOMAIN ev THEN {ev[f][i] : i \in 1..Len(ev[f])} ELSE {}
-TraceInit == l = 1 /\ mode = "admit" /\ kind = "pdf" /\ ext = "pdf" /\ ecase = "lower" /\ order = "canonical" /\ decoy = "none" /\ epub = NoEpub /\ tgt = "rel" /\ then = "none"
+TraceInit == l = 1 /\ mode = "admit" /\ kind = "pdf" /\ ext = "pdf" /\ ecase = "lower" /\ order = "canonical" /\ decoy = "none" /\ epub = NoEpub /\ tgt = "rel" /\ then = "none" /\ conf = "transitional"
 TraceAdmit ==
     /\ l <= Len(Trace) /\ Ev.event = "Admit" /\ l' = l + 1
     /\ mode' = Ev.mode /\ kind' = Ev.kind /\ ext' = Ev.ext
     /\ epub' = [rights |-> Ev.epub.rights, enc |-> SetOf(Ev.epub, "enc"), algo |-> Ev.epub.algo, uri |-> Ev.epub.uri, rfirst |-> Ev.epub.rfirst, rev |-> Ev.epub.rev]
-    /\ UNCHANGED <<ecase, order, decoy, tgt, then>>
+    /\ UNCHANGED <<ecase, order, decoy, tgt, then, conf>>
     /\ Ev.detect = Ev.kind
     /\ LET want == IF Ev.mode = "drm" THEN DrmVerdict(epub')
                    ELSE IF OwnExt(Ev.kind, Ev.ext) THEN "opens" ELSE IF Supported(Ev.ext) THEN "refused" ELSE "unspecified"
